@@ -18,7 +18,7 @@ ASSUMPTIONS = [
 NSHARDS = {"quick": 32, "thorough": 64}
 BUDGET_S = {"quick": 200, "thorough": 1500}
 MIN_HITS = {
-    'quick': {"exh2": 32768, "exh1": 128, "grammar_accepted": 3479, "trunc_case": 22349, "prefix": 51, "encode": 321, "tx_embed": 1354},
+    'quick': {"exh2": 32768, "exh1": 128, "grammar_accepted": 4119, "trunc_case": 22658, "prefix": 51, "encode": 321, "tx_embed": 1354},
     'thorough': {"exh2": 39321, "exh1": 153, "grammar_accepted": 279235, "trunc_case": 507825, "prefix": 61, "encode": 388, "tx_embed": 102795},
 }
 
